@@ -318,6 +318,7 @@ func ruleNilGuard(c *Ctx) {
 			expr ast.Expr // the X.F expression
 			at   ast.Node
 			fv   *types.Var
+			bind ast.Expr // for a local bound once to X.F: the X.F expression at the binding
 		}
 		var sites []site
 		walkNoLit(f.Body, func(x ast.Node) bool {
@@ -340,7 +341,7 @@ func ruleNilGuard(c *Ctx) {
 						if _, isIface := fv.Type().Underlying().(*types.Interface); !isIface {
 							// decided where the local is bound: the field must be known
 							// non-nil there (the local cannot change afterwards)
-							sites = append(sites, site{ast.Unparen(d), d, fv})
+							sites = append(sites, site{inner, x, fv, ast.Unparen(d)})
 						}
 						return true
 					}
@@ -352,7 +353,7 @@ func ruleNilGuard(c *Ctx) {
 						return true // X.F(...) on an interface field is a conversion, not a call
 					}
 				}
-				sites = append(sites, site{inner, x, fv})
+				sites = append(sites, site{inner, x, fv, nil})
 			}
 			return true
 		})
@@ -362,7 +363,7 @@ func ruleNilGuard(c *Ctx) {
 		g := p.Graph(f)
 		res := Interp(g, &factsDomain{p, f, func(ap string) bool {
 			for _, st := range sites {
-				if ap == accessPath(info, st.expr) {
+				if ap == accessPath(info, st.expr) || (st.bind != nil && ap == accessPath(info, st.bind)) {
 					return true
 				}
 			}
@@ -389,6 +390,17 @@ func ruleNilGuard(c *Ctx) {
 			for _, s := range res.In[node] {
 				if !s.Has("nn:" + ap) {
 					okAll, bad = false, s
+				}
+			}
+			if !okAll && st.bind != nil {
+				// the local cannot change after its binding: the field known non-nil there is enough
+				if bn, bap := g.NodeOf(st.bind), accessPath(info, st.bind); bn != nil && bap != "" {
+					okAll = true
+					for _, s := range res.In[bn] {
+						if !s.Has("nn:" + bap) {
+							okAll = false
+						}
+					}
 				}
 			}
 			if okAll {
